@@ -212,8 +212,12 @@ func (x *Exec) applyContract(st *State, fr *Frame, con *Contract, key string, na
 			results = append(results, rv)
 		}
 	}
-	// frame
-	for _, sp := range con.Assigns {
+	// frame: a contract without an assigns clause is treated conservatively
+	assigns := con.Assigns
+	if !con.AssignsSet && !con.Pure {
+		assigns = []string{"H", "B+"}
+	}
+	for _, sp := range assigns {
 		switch sp {
 		case "H":
 			st.havoc("H", x.heapKeep(st))
@@ -275,12 +279,10 @@ func (x *Exec) applyContract(st *State, fr *Frame, con *Contract, key string, na
 		if en.Local && !x.usesLocals() {
 			continue
 		}
-		t, err := env.evalBool(en.Expr)
-		if err != nil {
+		if err := st.assumeClause(env, en.Expr); err != nil {
 			x.genFail(x.instrName(fr, site, "call")+".ensures("+key+")", "callee-contract", x.safetyTags(fr), x.posOf(site.Pos()), err.Error())
 			continue
 		}
-		st.assume(t)
 	}
 	return Outcome{st: st, results: results}
 }
